@@ -116,6 +116,11 @@ def run(ctx):
             m.get('index') is None or m['index'].strip().root == ('param', 3))
         ctx.check(okb, R, cn, 'candidate-keeps-its-box-and-id', '', 'Candidate::new does not keep (bbox, index) of its arguments')
     ctx.floor(R, n, 4)
+    # the ranking sort is STABLE: with equal ranks an unstable sort may put a lower box of a tie first (the top-ranked box
+    # of the tie is then suppressed) and a second pass over the output can reorder and drop again (not a fixed point)
+    uns = [c.name for hb_ in [b] + closures for c in hb_.find_calls() if 'unstable' in c.name and 'sort' in c.name]
+    ctx.check(not uns, 'R14.1', b, 'ranking-sort-is-stable', '', 'nms ranks its candidates with %s: equal ranks are not kept '
+              'in input order, so ties are broken arbitrarily and nms(nms(x)) can differ from nms(x)' % uns)
     # ---------------- R14.2
     R = 'R14.2'
     ctx.rule(R, 'strict suppression; score filter on the score (missing score passes); validity filter; before ranking')
@@ -318,6 +323,9 @@ def run(ctx):
                 result_bbox = result_bbox or (e.kind == 'place' and e.fields[-1:] == ('bbox',))
     ctx.check(ok and result_bbox, R, b, 'result=map(bbox)', '', 'the result is not the bbox references of the '
               'candidates that were not excluded')
+    # the overlap nms suppresses on is the exact clip: the clipper's inside test is a sign test (shared with C08)
+    ctx.rule('R14.8', 'the clipping predicate behind the covered fraction is a sign test (no tolerance)')
+    ctx.floor('R14.8', C08.clip_predicate_rule(ctx, 'R14.8'), 1)
     # ---------------- R14.5 clone drops the vertex cache
     R = 'R14.5'
     ctx.rule(R, 'Universal2DBox::clone never carries the vertex cache')
